@@ -50,7 +50,7 @@ def run_spec(tier, wd):
     conf = TIERS[tier]
     raw = os.path.join(wd, "tlc.out")
     t0 = time.time()
-    rc, _ = C.run_tlc("NostrCanon.tla", conf["cfg"], workers=4, timeout=conf["tlc_timeout"], heap="4g", out_path=raw)
+    rc, _ = C.run_tlc("NostrCanon.tla", conf["cfg"], workers=4, timeout=conf["tlc_timeout"], heap="4g", stack="1g", out_path=raw)
     ok = False
     tail = []
     gen = dist = 0
